@@ -39,6 +39,7 @@ Inductive stmt :=
 | SBGet (d : nat) (nm : nat)                         (* regs[d] = _.nm *)
 | SBSetIdx (nm : nat) (path : list nat) (src : nat)  (* _.nm[i][j]... = regs[src]   (in-place write into a (nested) list variable) *)
 | SBGetIdx (d : nat) (nm : nat) (path : list nat)    (* regs[d] = _.nm[i][j]... *)
+| SBArrSet (nm : nat) (idx : list nat) (src : nat)   (* _.nm[i] = regs[src] / _.nm[i, j] = regs[src] on an Array-valued variable (in place) *)
 | SRaise (e : exn)                                   (* raise e() -- an exception raised by the program itself *)
 | SOIf (cnd : nat) (thenb : list stmt) (elifs : list (list stmt * nat * list stmt)) (elseb : option (list stmt))
       (* if _if(c): thenb;  if _elif(lambda: <condb>; regs[cr]): body ...;  if _else(): elseb;  _endif() *)
@@ -50,6 +51,7 @@ Inductive stmt :=
 | SArrNew (d : nat) (elems : list nat)               (* Array([regs...]) ; rows of a 2-D array are Arrays themselves *)
 | SArrGet (d : nat) (a : nat) (idx : list nat)       (* regs[d] = regs[a][i] or regs[a][i, j] *)
 | SArrSet (a : nat) (idx : list nat) (v : nat)       (* regs[a][i] = regs[v]  /  regs[a][i, j] = regs[v] *)
+| SArrCopy (d : nat) (a : nat)                       (* regs[d] = Array(regs[a]) : a new Array over a copy of the row / array / list *)
 (* ---- pysnark.pack ---- *)
 | SPack (d : nat) (k : pschema) (src : nat)          (* regs[d] = schema.pack(regs[src]) *)
 | SUnpack (d : nat) (k : pschema) (src : nat)        (* regs[d] = schema.unpack(regs[src], 0) *)
@@ -436,7 +438,7 @@ Fixpoint gen_stmt (st : stmt) (r : regs) {struct st} : G regs :=
       | _ => static_raise RuntimeError
       end
   | SRaise e => static_raise e
-  | SBSet _ _ | SBGet _ _ | SBSetIdx _ _ _ | SBGetIdx _ _ _ | SOIf _ _ _ _ | SOWhile _ _ _ _ | SBreakIf _ | SOFor _ _ _ _ _ _ => static_raise ModelError   (* block API only at statement level *)
+  | SBSet _ _ | SBGet _ _ | SBSetIdx _ _ _ | SBGetIdx _ _ _ | SBArrSet _ _ _ | SOIf _ _ _ _ | SOWhile _ _ _ _ | SBreakIf _ | SOFor _ _ _ _ _ _ => static_raise ModelError   (* block API only at statement level *)
   | SPermute d ps src =>
       match rget r src with
       | PList l => match as_lcs l with
@@ -468,6 +470,9 @@ Fixpoint gen_stmt (st : stmt) (r : regs) {struct st} : G regs :=
       mapM (fun l => out_plain (rget r6 l)) rls ;;;
       emit_out PNone ;;; ret (rset r6 d PNone)
   | SArrNew d elems => store d (PArr false (map (rget r) elems))
+  | SArrCopy d a => match rget r a with
+                    | PArr _ l | PList l => store d (PArr false l)
+                    | _ => static_raise TypeError end
   | SArrGet d a idx => match rget r a with
                        | PArr _ l => v <- arr_get l (map (rget r) idx) ;; store d v
                        | _ => static_raise TypeError end
@@ -596,6 +601,15 @@ Fixpoint gen_top (st : stmt) (b : bst) {struct st} : G1 bst :=
       match dget (bvals b) nm with
       | None => static_raise AttributeError
       | Some cur => match get_path cur path with Some v => name_store b d v | None => static_raise IndexError end
+      end
+  | SBArrSet nm idx src =>
+      match dget (bvals b) nm with
+      | Some (PArr false l) =>
+          l' <- lift (arr_set l (map (rget (bregs b)) idx) (rget (bregs b) src)) ;;
+          v' <- lift (name_val (PArr false l')) ;;
+          ret (with_vals b (dset (bvals b) nm v'))
+      | Some _ => static_raise TypeError
+      | None => static_raise AttributeError
       end
   | SBreakIf cn =>
       match bstack b with
